@@ -180,6 +180,8 @@ def _cmp(got, ref, maj, tau):
     """max err/maj over d; got: complex/float coefficients; ref/maj: QC lists"""
     worst = 0.0
     for g, r, m in zip(got, ref, maj):
+        if not np.isfinite(g):
+            return float('inf')
         gq = Q.QC.of(complex(g)) if np.iscomplexobj(g) else Q.QC.of(float(g))
         e = (gq - r).abs1()
         den = m.re if m.re > 0 else Q.Fraction(1, 10 ** 300)
